@@ -88,7 +88,7 @@ func (cp *CIDPrimary) Get(blk types.Block) ([]byte, []byte, error) {
 	if err != nil {
 		return nil, nil, err
 	}
-	if key != nil && value != nil {
+	if key != nil {
 		return key, value, nil
 	}
 	read := make([]byte, CIDSizePrefix+int(blk.Size))
